@@ -87,7 +87,15 @@ func init() {
 				return p
 			}
 			var payload []byte
-			switch c.rng.Intn(3) {
+			switch c.rng.Intn(4) {
+			case 3: // an extended-length frame (255 data bytes or more) whose last packet is the record
+				for len(payload)+len(pkt) < 255 || c.rng.Intn(3) == 0 {
+					payload = append(payload, other(true)...)
+					if len(payload) > 1500 {
+						break
+					}
+				}
+				payload = append(payload, pkt...)
 			case 0:
 				payload = append(append(payload, pkt...), other(false)...)
 			case 1:
